@@ -59,6 +59,7 @@ let ub_name = function
   | M.CastRange s -> Printf.sprintf "cast-range@%d" (int_of_nat s)
   | M.SignedOverflow s -> Printf.sprintf "signed-overflow@%d" (int_of_nat s)
   | M.Fuel -> "fuel"
+  | M.Blowup s -> Printf.sprintf "blowup@%d" (int_of_nat s)
 
 exception Model_ub of string   (* the model says the C++ has undefined behaviour here: stop the case *)
 
@@ -166,6 +167,25 @@ let run_case (lines : string list) =
       let cmd = next tk in
       (match cmd with
        | "new" -> let k = tk_int tk in Hashtbl.replace obj k M.init; pr "ok\n"
+       | "load" | "loadx" ->
+         let k = tk_int tk in let name = next tk in
+         let path = (if cmd = "load" then !own_dir else !shared_dir) ^ "/" ^ name in
+         (match read_file path with
+          | None -> pr "throw ios_failure\n"
+          | Some bs -> on_outcome (M.load_x bs) (fun s -> Hashtbl.replace obj k s; pr "ok\n"))
+       | "save" ->
+         let k = tk_int tk in let name = next tk in
+         on_outcome (M.save_x (o k)) (fun bs -> write_file (!own_dir ^ "/" ^ name) bs; pr "ok\n")
+       | "fsum" ->
+         let name = next tk in
+         (try
+            let ic = open_in_bin (!own_dir ^ "/" ^ name) in
+            let n = in_channel_length ic in
+            let s = really_input_string ic n in close_in ic;
+            let h = ref (Z.of_string "1469598103934665603") and prime = Z.of_string "1099511628211" and mask = Z.pred (Z.shift_left Z.one 64) in
+            String.iter (fun ch -> h := Z.logand (Z.mul (Z.logxor !h (Z.of_int (Char.code ch))) prime) mask) s;
+            pr "ok %d %s\n" n (Z.format "%016x" !h)
+          with Sys_error _ -> pr "nofile\n")
        | "snap" -> let k = tk_int tk in dump_all (o k)
        | "print" -> let _ = tk_int tk in pr "ok\n"
        | "drop" -> let k = tk_int tk in Hashtbl.remove obj k; pr "ok\n"
